@@ -390,6 +390,11 @@ func (h *histogram) RecordValue(value float64) {
 	idx := sort.Search(len(h.buckets), func(i int) bool {
 		return h.buckets[i].valueUpperBound >= value
 	})
+	if idx == len(h.buckets) {
+		// +Inf and NaN compare greater than (or unordered with) every
+		// bound, including math.MaxFloat64: count them in the last bucket.
+		idx = len(h.buckets) - 1
+	}
 	h.samples[idx].counter.Inc(1)
 }
 
